@@ -239,21 +239,31 @@ func (g *Gen) pose(seq uint32) Pose {
 
 func (g *Gen) body() []byte {
 	var n int
-	switch x := g.r.intn(100); {
-	case x < 50:
+	switch x := g.r.intn(200); {
+	case x < 110:
 		n = g.r.intn(24)
-	case x < 60:
+	case x < 130:
 		n = 0
-	case x < 70:
+	case x < 192:
 		n = 1 + g.r.intn(300)
-	case x < 78:
+	case x < 194:
 		n = 10239
-	case x < 86:
+	case x < 196:
 		n = 10240
-	case x < 94:
+	case x < 198:
 		n = 10241
 	default:
 		n = 10240 + g.r.intn(64)
+	}
+	switch {
+	case n == 0:
+		g.count("body:empty")
+	case n < 10239:
+		g.count("body:small")
+	case n <= 10240:
+		g.count("body:at-limit(" + itoa(n) + ")")
+	default:
+		g.count("body:over-limit")
 	}
 	b := make([]byte, n)
 	for i := range b {
